@@ -4,13 +4,13 @@
 # test suite gives the same failures as on the unchanged tree.  Prints a summary; the worktree is removed afterwards.
 set -u
 PATCH=$(realpath "$1"); DEMO=$(realpath "$2"); NOSUITE=${3:-}
-W=$(mktemp -d /tmp/dfconf-XXXXXX); rmdir "$W"
+W=$(mktemp -d /tmp/dfconf-XXXXXX); rmdir "$W"; OUT=$(mktemp /tmp/dfconf-out-XXXXXX)
 git -C /repo worktree add --detach "$W" HEAD >/dev/null 2>&1 || { echo "worktree failed"; exit 2; }
-trap 'git -C /repo worktree remove --force "$W" >/dev/null 2>&1; rm -rf "$W"' EXIT
-run_demo() { (cd "$W" && PYTHONPATH="$W" MPLBACKEND=Agg timeout 600 /venv/bin/python "$DEMO" >/tmp/demo.out 2>&1; echo $?); }
+trap 'git -C /repo worktree remove --force "$W" >/dev/null 2>&1; rm -rf "$W" "$OUT"' EXIT
+run_demo() { (cd "$W" && PYTHONPATH="$W" MPLBACKEND=Agg timeout 600 /venv/bin/python "$DEMO" >"$OUT" 2>&1; echo $?); }
 echo "demo without change: exit $(run_demo)"
 git -C "$W" apply "$PATCH" 2>/dev/null || git -C "$W" apply -3 "$PATCH" || { echo "PATCH DOES NOT APPLY"; exit 2; }
-echo "demo with change:    exit $(run_demo)  ($(tail -1 /tmp/demo.out | cut -c1-200))"
+echo "demo with change:    exit $(run_demo)  ($(tail -1 "$OUT" | cut -c1-200))"
 if [ "$NOSUITE" != "--no-suite" ]; then
   (cd "$W" && PYTHONPATH="/verif/tools/seedsite:$W" /venv/bin/python -m pytest -q -p no:cacheprovider --timeout=900 discretisedfield/tests -n 8 2>&1 | tail -4)
 fi
